@@ -3,7 +3,10 @@
 
 package protocol
 
-import "crypto"
+import (
+	"crypto"
+	"strconv"
+)
 
 // Hash is a crypto hash, with length in bytes preceding. Hashes are computed
 // in accordance with FIPS-180-4. See COSE assigned numbers for hash types.
@@ -51,7 +54,7 @@ func (alg HashAlg) String() string {
 	case HmacSha384Hash:
 		return "HmacSha384Hash"
 	}
-	panic("HashAlg missing switch case(s)")
+	return "HashAlg(" + strconv.FormatInt(int64(alg), 10) + ")"
 }
 
 // HashFunc implements crypto.SignerOpts, but is mainly intended as a simple
